@@ -321,7 +321,10 @@ func TestC14_PrivateRoutes(t *testing.T) { rapid.Check(t, propPrivateRoutes) }
 // a range check on one word) is invisible to any realistic amount of random
 // signing.
 func TestC14_StructuredNonceCorpus(t *testing.T) {
-	raw, err := os.ReadFile(filepath.Join("testdata", "structured_nonces.txt"))
+	raw, err := os.ReadFile(filepath.Join(os.Getenv("VERIF_ROOT"), "harness", "c14", "testdata", "structured_nonces.txt"))
+	if err != nil {
+		raw, err = os.ReadFile(filepath.Join("testdata", "structured_nonces.txt"))
+	}
 	if err != nil {
 		t.Fatalf("HARNESS-INCONCLUSIVE: corpus missing: %v", err)
 	}
